@@ -89,6 +89,132 @@ Proof.
   unfold firstnN. rewrite firstn_firstn, Nat.min_id. reflexivity.
 Qed.
 
+(* ---------- STOP ---------- *)
+(* the machine the STOP instruction leaves behind: the error path of execute() has saved state and address *)
+Definition stopped_at (r : rt) : rt :=
+  let r2 := set_pc r (r_pc r + 1) in
+  set_cont_pc (set_cont (set_state r2 (StRuntimeError (in_line (mkErr E_Break None (0, 0)) (cur_line r2)))) StRunning) (r_pc r2).
+
+Lemma stop_stops : forall r j, r_state r = StRunning -> ls_dir_errors (r_listing r) = [] -> r_tron r = false ->
+  nthN (l_ops (pg_link (r_prog r))) (r_pc r) = Some OpStop -> r_pc r + 1 < r_entry r -> stack_is_full r = false ->
+  rt_execute O r (N.succ j) = Ok (stopped_at r, EvRunning).
+Proof.
+  intros r j Hs Hd Ht Hop Hpc Hfull. rewrite (exec_running O r (N.succ j) Hs Hd). rewrite N2Nat.inj_succ.
+  rewrite (exec_loop_S_notron O _ _ r Ht). rewrite one_op_eq, Hop. cbn [exec_op]. unfold rfail, err. cbn [after_loop].
+  change (r_state (set_pc r (r_pc r + 1))) with (r_state r). rewrite Hs.
+  cbn [r_entry r_pc set_cont_pc set_cont set_state set_pc].
+  destruct (N.leb_spec (r_entry r) (r_pc r + 1)); [lia |]. cbn [orb].
+  assert (Hf : stack_is_full (set_cont_pc (set_cont (set_state (set_pc r (r_pc r + 1))
+                 (StRuntimeError (in_line (mkErr E_Break None (0, 0)) (cur_line (set_pc r (r_pc r + 1)))))) StRunning) (r_pc r + 1)) = false)
+    by exact Hfull.
+  rewrite Hf. reflexivity.
+Qed.
+
+Lemma resumed_after_stop : forall r, r_state r = StRunning -> r_col r = 0 -> Linked (r_prog r) -> tidy r ->
+  r_entry r = pg_direct (r_prog r) ->
+  resumed (at_prompt (stopped_at r))
+  = L (r_pc r + 1) None (firstnN (pg_direct (r_prog r)) (l_ops (pg_link (r_prog r))) ++ [OpCont; OpEnd]) (set_pc r (r_pc r + 1)).
+Proof.
+  intros r Hs Hcol HL (Hc & Hl & Hpe & Hpl) He.
+  destruct HL as [Hu Hw Hcu _ _ _ _ _ _].
+  destruct r as [prompt listing snap dirty prog pc tr tron entry stack slen vars state cont cont_pc col rand fns ent].
+  destruct prog as [perrs pind pdir pline plink]. destruct plink as [lcur lops ldata ldpos ldset lsyms lunl lwh].
+  cbn in Hs, Hcol, Hu, Hw, Hcu, Hc, Hl, Hpe, Hpl, He. subst.
+  unfold resumed, entered, at_prompt, stopped_at, cont_prog, L, with_ops. cbn. rewrite Hl. reflexivity.
+Qed.
+
+(* STOP, the report, the prompt, CONT: the call returns what the machine would have returned had STOP been skipped *)
+Theorem stop_is_transparent : forall r j k k1 k2 k3,
+  r_state r = StRunning -> r_pc r + 1 < r_entry r -> r_dirty r = false -> r_tron r = false -> Linked (r_prog r) ->
+  r_entry r = pg_direct (r_prog r) -> r_col r = 0 -> tidy r -> stack_is_full r = false ->
+  nthN (l_ops (pg_link (r_prog r))) (r_pc r) = Some OpStop ->
+  let r2 := set_pc r (r_pc r + 1) in
+  safe_run O (r_entry r) (N.to_nat k) (has_ind r) r2 ->
+  let rS := stopped_at r in
+  let rB := at_prompt rS in
+  rt_execute O r (N.succ j) = Ok (rS, EvRunning)
+  /\ execs O rS [k1; k2; k3] = Ok (rB, [EvErrors [in_line (mkErr E_Break None (0, 0)) (cur_line r2)];
+                                          EvPrint (match r_prompt r with [] => [] | p => p ++ [c_nl] end); EvStopped])
+  /\ rt_enter O rB cont_text = Ok (entered rB, true)
+  /\ same_up_to (firstnN (pg_direct (r_prog r)) (l_ops (pg_link (r_prog r))) ++ [OpCont; OpEnd])
+                (rt_execute O (entered rB) (N.succ k)) (rt_execute O r2 k).
+Proof.
+  intros r j k k1 k2 k3 Hs Hpc Hd Ht HL He Hcol Htidy Hfull Hop. cbn zeta. intros Hsafe.
+  assert (Hdir : ls_dir_errors (r_listing r) = []) by (destruct Htidy as (_ & Hl & _); rewrite Hl; reflexivity).
+  split; [exact (stop_stops r j Hs Hdir Ht Hop Hpc Hfull) |].
+  assert (HeS : r_entry (stopped_at r) <> 0) by (cbn; lia).
+  pose proof (error_then_prompt O (stopped_at r) _ k1 k1 k2 k3 eq_refl HeS) as Hprompt. cbn zeta in Hprompt.
+  change (r_col (stopped_at r)) with (r_col r) in Hprompt. rewrite Hcol in Hprompt. cbn [N.ltb N.compare] in Hprompt.
+  split; [exact Hprompt |].
+  assert (HLB : Linked (r_prog (at_prompt (stopped_at r)))) by exact HL.
+  destruct (cont_at_prompt_resumes O (at_prompt (stopped_at r)) k I eq_refl Hd Ht HLB) as (H1 & H2 & _).
+  split; [exact H1 |]. rewrite H2. rewrite (resumed_after_stop r Hs Hcol HL Htidy He).
+  destruct Htidy as (Hc & Hl & _).
+  apply (execute_ignores_dead_fields (set_pc r (r_pc r + 1)) k (r_entry r)); [exact Hs | exact Hdir | exact Hsafe |].
+  cbn [r_prog set_pc]. rewrite He. destruct HL as [_ _ _ _ _ _ Hlen _ _].
+  rewrite firstnN_app_le by (rewrite lenN_firstnN by assumption; lia).
+  unfold firstnN. rewrite firstn_firstn, Nat.min_id. reflexivity.
+Qed.
+
+(* ---------- END ---------- *)
+(* the machine at the prompt after an END statement inside the program *)
+Definition ended_at (r : rt) : rt :=
+  let r2 := set_pc r (r_pc r + 1) in
+  set_entry (set_state (set_cont_pc (set_state (set_cont r2 StRunning) (r_cont r)) (r_pc r2)) StStopped) 0.
+
+Lemma end_ends : forall r j, r_state r = StRunning -> ls_dir_errors (r_listing r) = [] -> r_tron r = false ->
+  nthN (l_ops (pg_link (r_prog r))) (r_pc r) = Some OpEnd -> r_pc r + 1 < r_entry r -> r_col r = 0 ->
+  rt_execute O r (N.succ j) = Ok (ended_at r, EvPrint (match r_prompt r with [] => [] | p => p ++ [c_nl] end)).
+Proof.
+  intros r j Hs Hd Ht Hop Hpc Hcol. rewrite (exec_running O r (N.succ j) Hs Hd). rewrite N2Nat.inj_succ.
+  rewrite (exec_loop_S_notron O _ _ r Ht). rewrite one_op_eq, Hop. cbn [exec_op]. unfold rbind, do_end.
+  cbn [r_pc r_entry set_pc]. destruct (N.ltb_spec (r_pc r + 1) (r_entry r)); [| lia].
+  cbn [r_pc r_entry set_cont_pc set_state set_cont set_pc r_state r_cont].
+  destruct (N.eqb_spec (r_pc r + 1) (r_entry r)); [lia |]. unfold rret. cbn [after_loop r_state set_state].
+  unfold ready_prompt. cbn [r_entry set_state set_cont_pc set_cont set_pc].
+  destruct (N.eqb_spec (r_entry r) 0); [lia |]. cbn [negb r_col set_entry set_state set_cont_pc set_cont set_pc]. rewrite Hcol.
+  cbn [N.ltb N.compare app r_prompt set_entry set_state set_cont_pc set_cont set_pc]. rewrite Hs. reflexivity.
+Qed.
+
+Lemma resumed_after_end : forall r, r_state r = StRunning -> r_col r = 0 -> Linked (r_prog r) -> tidy r ->
+  r_entry r = pg_direct (r_prog r) ->
+  resumed (ended_at r)
+  = L (r_pc r + 1) None (firstnN (pg_direct (r_prog r)) (l_ops (pg_link (r_prog r))) ++ [OpCont; OpEnd]) (set_pc r (r_pc r + 1)).
+Proof.
+  intros r Hs Hcol HL (Hc & Hl & Hpe & Hpl) He.
+  destruct HL as [Hu Hw Hcu _ _ _ _ _ _].
+  destruct r as [prompt listing snap dirty prog pc tr tron entry stack slen vars state cont cont_pc col rand fns ent].
+  destruct prog as [perrs pind pdir pline plink]. destruct plink as [lcur lops ldata ldpos ldset lsyms lunl lwh].
+  cbn in Hs, Hcol, Hu, Hw, Hcu, Hc, Hl, Hpe, Hpl, He. subst.
+  unfold resumed, entered, ended_at, cont_prog, L, with_ops. cbn. rewrite Hl. reflexivity.
+Qed.
+
+(* END, the prompt, CONT: the call returns what the machine would have returned had END been skipped *)
+Theorem end_is_transparent : forall r j k,
+  r_state r = StRunning -> r_pc r + 1 < r_entry r -> r_dirty r = false -> r_tron r = false -> Linked (r_prog r) ->
+  r_entry r = pg_direct (r_prog r) -> r_col r = 0 -> tidy r ->
+  nthN (l_ops (pg_link (r_prog r))) (r_pc r) = Some OpEnd ->
+  let r2 := set_pc r (r_pc r + 1) in
+  safe_run O (r_entry r) (N.to_nat k) (has_ind r) r2 ->
+  let rB := ended_at r in
+  rt_execute O r (N.succ j) = Ok (rB, EvPrint (match r_prompt r with [] => [] | p => p ++ [c_nl] end))
+  /\ rt_enter O rB cont_text = Ok (entered rB, true)
+  /\ same_up_to (firstnN (pg_direct (r_prog r)) (l_ops (pg_link (r_prog r))) ++ [OpCont; OpEnd])
+                (rt_execute O (entered rB) (N.succ k)) (rt_execute O r2 k).
+Proof.
+  intros r j k Hs Hpc Hd Ht HL He Hcol Htidy Hop. cbn zeta. intros Hsafe.
+  assert (Hdir : ls_dir_errors (r_listing r) = []) by (destruct Htidy as (_ & Hl & _); rewrite Hl; reflexivity).
+  split; [exact (end_ends r j Hs Hdir Ht Hop Hpc Hcol) |].
+  assert (HLB : Linked (r_prog (ended_at r))) by exact HL.
+  assert (HcB : r_cont (ended_at r) = StRunning) by reflexivity.
+  destruct (cont_at_prompt_resumes O (ended_at r) k I HcB Hd Ht HLB) as (H1 & H2 & _).
+  split; [exact H1 |]. rewrite H2. rewrite (resumed_after_end r Hs Hcol HL Htidy He).
+  apply (execute_ignores_dead_fields (set_pc r (r_pc r + 1)) k (r_entry r)); [exact Hs | exact Hdir | exact Hsafe |].
+  cbn [r_prog set_pc]. rewrite He. destruct HL as [_ _ _ _ _ _ Hlen _ _].
+  rewrite firstnN_app_le by (rewrite lenN_firstnN by assumption; lia).
+  unfold firstnN. rewrite firstn_firstn, Nat.min_id. reflexivity.
+Qed.
+
 (* ---------- the calls that follow, for as long as the machine keeps running ---------- *)
 Fixpoint safe_calls (e0 : N) (ks : list N) (r : rt) : Prop :=
   match ks with
@@ -182,3 +308,43 @@ Example transparent_on_loop_machine :
   | _, _ => False
   end.
 Proof. vm_compute. split; reflexivity. Qed.
+
+(* non-vacuity for STOP and END: machines standing in front of the instruction, reached through enter / execute only *)
+Definition before_word (word : string) : rt :=
+  let O := dummy_oracle in
+  let r0 := ok_ex (rt_execute O rt_default 5000) in
+  let r1 := ok_rt (rt_enter O r0 (s2l "10 A=1")) in
+  let r2 := ok_rt (rt_enter O r1 (s2l ("20 " ++ word))) in
+  let r3 := ok_rt (rt_enter O r2 (s2l "30 A=A+1")) in
+  let r4 := ok_rt (rt_enter O r3 (s2l "40 PRINT A;")) in
+  let r5 := ok_ex (rt_execute O r4 5000) in
+  let r6 := ok_rt (rt_enter O r5 (s2l "RUN")) in
+  ok_ex (rt_execute O r6 4).
+
+Example stop_premises :
+  let r := before_word "STOP" in
+  r_state r = StRunning /\ r_pc r + 1 < r_entry r /\ r_dirty r = false /\ r_tron r = false /\ Linked (r_prog r)
+  /\ r_entry r = pg_direct (r_prog r) /\ r_col r = 0 /\ tidy r /\ stack_is_full r = false
+  /\ nthN (l_ops (pg_link (r_prog r))) (r_pc r) = Some OpStop
+  /\ safe_run dummy_oracle (r_entry r) (N.to_nat 50) (has_ind r) (set_pc r (r_pc r + 1)).
+Proof.
+  cbn zeta. split; [vm_compute; reflexivity |]. split; [vm_compute; reflexivity |]. split; [vm_compute; reflexivity |].
+  split; [vm_compute; reflexivity |]. split; [apply linked_b_ok; vm_compute; reflexivity |]. split; [vm_compute; reflexivity |].
+  split; [vm_compute; reflexivity |]. split; [unfold tidy; vm_compute; repeat split |]. split; [vm_compute; reflexivity |].
+  split; [vm_compute; reflexivity | apply safe_run_b_ok; vm_compute; reflexivity].
+Qed.
+
+Example end_premises :
+  let r := before_word "END" in
+  r_state r = StRunning /\ r_pc r + 1 < r_entry r /\ r_dirty r = false /\ r_tron r = false /\ Linked (r_prog r)
+  /\ r_entry r = pg_direct (r_prog r) /\ r_col r = 0 /\ tidy r
+  /\ nthN (l_ops (pg_link (r_prog r))) (r_pc r) = Some OpEnd
+  /\ safe_run dummy_oracle (r_entry r) (N.to_nat 50) (has_ind r) (set_pc r (r_pc r + 1)).
+Proof.
+  cbn zeta. split; [vm_compute; reflexivity |]. split; [vm_compute; reflexivity |]. split; [vm_compute; reflexivity |].
+  split; [vm_compute; reflexivity |]. split; [apply linked_b_ok; vm_compute; reflexivity |]. split; [vm_compute; reflexivity |].
+  split; [vm_compute; reflexivity |]. split; [unfold tidy; vm_compute; repeat split |].
+  split; [vm_compute; reflexivity | apply safe_run_b_ok; vm_compute; reflexivity].
+Qed.
+Definition before_stop : rt := before_word "STOP".
+Definition before_end : rt := before_word "END".
